@@ -200,3 +200,102 @@ def bounded_set_data(tier, seed):
                         w.loop.close()
     return {"bound": f"{len(datas)} request shapes x connection kinds of two addressed simulators x 2 earlier states", "cases": cases,
             "failures": failures[:5]}
+
+
+def bounded_input_buffer(tier, seed):
+    """TimedInputBuffer as a whole (add + get_input over time): every sequence of up to N operations over two due times and one
+    connection -- add(due, value) / get_input(step) with non-decreasing step -- against the statement of C03 for pushed values:
+    get_input(step) delivers, per source and attribute, the value added LAST among those due at or before the step and not yet
+    delivered; each value is delivered at most once; values not yet due stay"""
+    import itertools
+    from mosaik.simmanager import TimedInputBuffer
+    N = 6 if tier == "thorough" else 5
+    ops = [("add", 1), ("add", 5), ("get", 1), ("get", 5), ("get", 7)]
+    failures, cases = [], 0
+    for n in range(1, N + 1):
+        for seq in itertools.product(ops, repeat=n):
+            steps = [o[1] for o in seq if o[0] == "get"]
+            if steps != sorted(steps) or not steps:
+                continue
+            cases += 1
+            buf = TimedInputBuffer()
+            pending = []          # reference: [(due, serial, value)] in insertion order
+            serial = 0
+            ok, why = True, ""
+            for op, t in seq:
+                if op == "add":
+                    serial += 1
+                    value = 100 - serial          # (later values are SMALLER: the order of delivery must not come from the values)
+                    buf.add(t, "A", "e", "d", "a", value)
+                    pending.append((t, serial, value))
+                else:
+                    got = buf.get_input({}, t)
+                    due = [p_ for p_ in pending if p_[0] <= t]
+                    pending = [p_ for p_ in pending if p_[0] > t]
+                    # delivered in order of due time; within one due time in insertion order: the last one written wins
+                    exp = {"d": {"a": {"A.e": sorted(due)[-1][2]}}} if due else {}
+                    if got != exp:
+                        ok, why = False, f"get_input(step={t}) returned {got}, expected {exp}"
+                        break
+            if not ok:
+                failures.append({"desc": f"TimedInputBuffer, operations {list(seq)} (value of the k-th add is 100 - k): {why}", "case": {"ops": [list(o) for o in seq]}})
+                if len(failures) >= 5:
+                    break
+        if len(failures) >= 5:
+            break
+    return {"bound": f"every sequence of <= {N} operations from add(due 1 | 5) / get_input(step 1 | 5 | 7) with non-decreasing steps, one connection",
+            "cases": cases, "failures": failures}
+
+
+def bounded_async_get_data(tier, seed):
+    """MosaikRemote.get_data (an agent asking for other simulators' data during its step): refused with ScenarioError exactly
+    when SOME addressed simulator has no async_requests connection to the caller, whatever the entity ids; otherwise the
+    requested attributes are returned per full id (C16)"""
+    import itertools
+    import mosaik
+    from mosaik.exceptions import ScenarioError
+    from mosaik.simmanager import SimRunner, MosaikRemote
+    from mosaik.tiered_time import TieredInterval, TieredTime
+    failures, cases = [], 0
+
+    class P(_StubProxy):
+        async def send(self, request):
+            if request[0] == "get_data":
+                return {eid: {a: f"{eid}.{a}" for a in attrs} for eid, attrs in request[1][0].items()}
+            return None
+    requests = [["A.0"], ["Z.0"], ["A.0", "Z.0"], ["Z.0", "A.0"], ["A.0", "A.1"], ["A.0", "Z.1"], ["A.1", "Z.1", "A.0"]]
+    for req in requests:
+        for conn_a, conn_z in itertools.product(("async", "plain", "none"), repeat=2):
+            for cache in (False, True):
+                cases += 1
+                w = mosaik.World({}, skip_greetings=True, cache=cache)
+                try:
+                    sims = {n: SimRunner(n, P()) for n in ("A", "Z", "B")}
+                    w.sims.update(sims)
+                    for n, conn in (("A", conn_a), ("Z", conn_z)):
+                        if conn in ("async", "plain"):
+                            sims[n].successors[sims["B"]] = TieredInterval(0)
+                        if conn == "async":
+                            sims[n].successors_to_wait_for[sims["B"]] = TieredInterval(0)
+                        if cache:
+                            sims[n].outputs = {0: {"0": {"x": f"{n}.0.x"}, "1": {"x": f"{n}.1.x"}}}
+                    b = sims["B"]
+                    b.is_in_step = True
+                    b.current_step = TieredTime(0)
+                    b.last_step = TieredTime(0)
+                    try:
+                        got = w.loop.run_until_complete(MosaikRemote(w, "B").get_data({fid: ["x"] for fid in req}))
+                        raised = False
+                    except ScenarioError:
+                        got, raised = None, True
+                    ok_conn = {"A": conn_a == "async", "Z": conn_z == "async"}
+                    exp_raise = any(not ok_conn[fid.split(".")[0]] for fid in req)
+                    good = raised == exp_raise and (raised or (set(got) == set(req) and all(set(got[f]) == {"x"} for f in req)))
+                    if not good:
+                        failures.append({"desc": f"get_data({req}) by B with A: {conn_a}, Z: {conn_z}, cache={cache}: "
+                                                 f"{'refused' if raised else 'answered ' + str(got)[:120]} (expected: {'refused' if exp_raise else 'answered'})",
+                                         "case": {"request": req, "A": conn_a, "Z": conn_z, "cache": cache}})
+                finally:
+                    w.loop.close()
+    return {"bound": f"{len(requests)} request shapes over two addressed simulators x their connection kinds (async / plain / none) x cache",
+            "cases": cases, "failures": failures[:5]}
